@@ -6,6 +6,8 @@
 #include "vrt_st.h"
 #include "ref_text.h"
 #include "gen_text.h"
+#include "gen_scale.h"
+#include "ambient.h"
 #include <climits>
 
 using vrt::Rng;
@@ -57,9 +59,62 @@ static bool call(const char *op, const S &subject, const std::string &args, F &&
 
 static void expect(const char *op, const S &subject, const std::string &args, const S &got, const S &want)
 {
-    if (got != want)
+    if (got == want) return;
+    if (subject.size() <= 96) {
         vrt::violation(sfmt("C08:%s:wrong-result", op),
                        sfmt("subject=%s %s got=%s want=%s", show(subject).c_str(), args.c_str(), show(got).c_str(), show(want).c_str()));
+    } else {
+        // big values: lengths, hashes and the bytes around the first difference instead of megabytes of hex
+        const size_t fd = scale::first_diff(got, want);
+        vrt::violation(sfmt("C08:%s:wrong-result", op),
+                       sfmt("subject: %s; %s; got: %s; want: %s; first difference at result offset %zu", scale::brief(subject).c_str(), args.c_str(),
+                            scale::brief(got, fd).c_str(), scale::brief(want, fd).c_str(), fd));
+    }
+}
+
+// ---- per-input monitors shared by the directed, random and scale phases ------------------------------------------
+static void substr_check(const vrt::Box<ST::string> &st, const S &s, long start, size_t count)
+{
+    S got, args = sfmt("start=%ld count=%zu", start, count);
+    if (call("substr", s, args, [&] { return st->substr(start, count); }, got))
+        expect("substr", s, args, got, ref::substr(s, start, count));
+    vrt::count("substr.calls");
+}
+static void substr_check_default_count(const vrt::Box<ST::string> &st, const S &s, long start)
+{
+    S got, args = sfmt("start=%ld count=default", start);
+    if (call("substr", s, args, [&] { return st->substr(start); }, got))
+        expect("substr", s, args, got, ref::substr(s, start, SMAX));
+    vrt::count("substr.calls");
+}
+static void left_right_check(const vrt::Box<ST::string> &st, const S &s, size_t k)
+{
+    S got, args = sfmt("n=%zu", k);
+    if (call("left", s, args, [&] { return st->left(k); }, got)) expect("left", s, args, got, ref::left(s, k));
+    if (call("right", s, args, [&] { return st->right(k); }, got)) expect("right", s, args, got, ref::right(s, k));
+    vrt::count("left_right.calls", 2);
+    if (k > s.size() && k < 2 * s.size()) vrt::count("right.n_between_size_and_2size");
+}
+// trim_left / trim_right / trim of s with the character set cs (nullptr: the default argument, i.e. white space)
+static void trim_check(const S &s, const char *cs, S *trimmed = nullptr)
+{
+    const S set = cs ? S(cs) : S(" \t\r\n");
+    vrt::Box<ST::string> st(vrt::mk(s));
+    vrt::Exact<char> cset(set.data(), set.size(), true);
+    S got, args = sfmt("charset=%s%s", show(set).c_str(), cs ? "" : "(default)");
+    if (call("trim_left", s, args, [&] { return cs ? st->trim_left(cset.data()) : st->trim_left(); }, got))
+        expect("trim_left", s, args, got, ref::trim_left(s, set));
+    if (call("trim_right", s, args, [&] { return cs ? st->trim_right(cset.data()) : st->trim_right(); }, got))
+        expect("trim_right", s, args, got, ref::trim_right(s, set));
+    if (call("trim", s, args, [&] { return cs ? st->trim(cset.data()) : st->trim(); }, got)) {
+        expect("trim", s, args, got, ref::trim(s, set));
+        if (got.size() == s.size()) vrt::count("trim.nothing_to_trim");
+        if (got.empty() && !s.empty()) vrt::count("trim.everything_trimmed");
+    }
+    if (vrt::str_of(*st) != s) vrt::violation("C08:trim:subject-changed", s.size() <= 96 ? show(s) : scale::brief(s));
+    vrt::count("trim.calls", 3);
+    vrt::distinct(vrt::fnv1a(set.data(), set.size(), vrt::fnv1a(s.data(), s.size(), 13)));
+    if (trimmed) *trimmed = got;
 }
 
 static std::vector<S> subjects()
@@ -100,8 +155,58 @@ static std::vector<size_t> counts_for(size_t n, long start)
     return v;
 }
 
+
+// ---------------------------------------------------------------- generators of the scale phase
+// len bytes drawn from `alphabet` (empty: all 256 byte values)
+static S fill_random(Rng &r, size_t len, const S &alphabet)
+{
+    S s(len, '\0');
+    for (size_t i = 0; i < len;) {
+        uint64_t v = r.next();
+        for (int k = 0; k < 8 && i < len; ++k, v >>= 8)
+            s[i++] = alphabet.empty() ? static_cast<char>(v & 0xFF) : alphabet[(v & 0xFF) % alphabet.size()];
+    }
+    return s;
+}
+static S fill_background(Rng &r, size_t len, const S &alphabet)
+{
+    if (r.chance(1, 3)) return S(len, alphabet[r.below(alphabet.size())]);
+    return fill_random(r, len, alphabet);
+}
+// character sets for trim at scale: the default, short ASCII ones, ones with bytes >= 0x80, long ones (tens to hundreds of members)
+static const std::vector<S> &scale_charsets()
+{
+    static const std::vector<S> v = [] {
+        std::vector<S> o = {" \t", "x", "\"'", "_-.,;:", " \t\r\n\v\f", "\xe9\x80", " \xa0", "\xc2\xa0 \t", "\xff", "\x7f\x01"};
+        S a, b, c, d;
+        for (int ch = 1; ch < 0x80; ++ch) if (ch != 'Q' && ch != 'q' && ch != '.') a += static_cast<char>(ch);     // 124 ASCII bytes
+        for (int ch = 0x20; ch < 0x40; ++ch) b += static_cast<char>(ch);                                          // 32: space, punctuation, digits
+        for (int ch = 0x20; ch < 0x30; ++ch) c += static_cast<char>(ch);
+        for (int ch = 0xA0; ch < 0xE0; ++ch) c += static_cast<char>(ch);                                          // 80 bytes, most of them >= 0x80
+        for (int ch = 1; ch < 256; ++ch) if (ch != 'Q' && ch != 'q' && ch != 0xD1 && ch != 0x91) d += static_cast<char>(ch);   // nearly every byte value
+        o.push_back(a); o.push_back(b); o.push_back(c); o.push_back(d);
+        return o;
+    }();
+    return v;
+}
+// a byte that is NOT in `set` but looks like the member m to code that drops or ignores high bits (m modulo 128, modulo 64), or that
+// sits right next to it; returns false when every candidate is a member itself
+static bool alias_of_member(Rng &r, const S &set, bool high_only, char &out)
+{
+    if (set.empty()) return false;
+    for (int tries = 0; tries < 16; ++tries) {
+        const unsigned m = static_cast<unsigned char>(set[r.below(set.size())]);
+        unsigned cand[8] = {m ^ 0x80u, (m & 0x3Fu) | 0x80u, (m & 0x3Fu) | 0xC0u, (m & 0x7Fu) | 0x80u, m ^ 0x40u, m ^ 0x20u, (m + 1) & 0xFFu, (m - 1) & 0xFFu};
+        const unsigned c = cand[r.below(high_only ? 4 : 8)];
+        if (high_only && c < 0x80) continue;
+        if (!ref::in_set(set, static_cast<char>(c))) { out = static_cast<char>(c); return true; }
+    }
+    return false;
+}
+
 static void body()
 {
+    ambient::enable(3);
     vrt::require("substr.calls", 1000);
     vrt::require("left_right.calls", 500);
     vrt::require("trim.calls", 500);
@@ -178,21 +283,9 @@ static void body()
         S core = gen::bytes_over(r, mid, other + set);
         s += core;
         if (!set.empty()) s += gen::bytes_over(r, trail, set);
-        vrt::Box<ST::string> st(vrt::mk(s));
-        vrt::Exact<char> cset(set.data(), set.size(), true);
-        S got, args = sfmt("charset=%s%s", show(set).c_str(), cs ? "" : "(default)");
-        if (call("trim_left", s, args, [&] { return cs ? st->trim_left(cset.data()) : st->trim_left(); }, got))
-            expect("trim_left", s, args, got, ref::trim_left(s, set));
-        if (call("trim_right", s, args, [&] { return cs ? st->trim_right(cset.data()) : st->trim_right(); }, got))
-            expect("trim_right", s, args, got, ref::trim_right(s, set));
-        if (call("trim", s, args, [&] { return cs ? st->trim(cset.data()) : st->trim(); }, got)) {
-            expect("trim", s, args, got, ref::trim(s, set));
-            if (got.size() == s.size()) vrt::count("trim.nothing_to_trim");
-            if (got.empty() && !s.empty()) vrt::count("trim.everything_trimmed");
-        }
-        vrt::count("trim.calls", 3);
-        vrt::distinct(vrt::fnv1a(set.data(), set.size(), vrt::fnv1a(s.data(), s.size(), 13)));
-        if (vrt::want_sample("trim") && lead && trail) vrt::sample("trim", sfmt("trim subject=%s %s -> %s", show(s).c_str(), args.c_str(), show(got).c_str()));
+        S got;
+        trim_check(s, cs, &got);
+        if (vrt::want_sample("trim") && lead && trail) vrt::sample("trim", sfmt("trim subject=%s charset=%s%s -> %s", show(s).c_str(), show(set).c_str(), cs ? "" : "(default)", show(got).c_str()));
     });
 
     // ---- 4. before/after first/last: exhaustive small sweep + random
@@ -308,6 +401,7 @@ static void body()
     }
     vrt::phase("sep_random", vrt::tier_count(80000, 800000), [&](uint64_t, Rng &r) {
         S alpha = r.chance(1, 3) ? S("ab:") : r.chance(1, 2) ? S("aAbB:.\xc3\xa9") : S("@`[{^~_\x7f,\x0c; \t)kK");   // last: non-letters next to their bit-5 twins
+        if (r.chance(1, 5)) alpha = r.chance(1, 2) ? S("iI:") : S("iI\xc9\xe9:");     // letters / bytes that locale-dependent case mapping treats differently
         if (r.chance(1, 4)) alpha.push_back('\0');
         S s = gen::bytes_over(r, gen::pick_len(r) % 60, alpha);
         S sep;
@@ -344,19 +438,177 @@ static void body()
         case 3: count = SMAX - static_cast<size_t>(start) + r.below(5) - 2; break;
         default: count = (start >= 0 && start <= n) ? static_cast<size_t>(n - start) + r.below(3) - 1 : 1; break;
         }
-        S got, args = sfmt("start=%ld count=%zu", start, count);
-        if (call("substr", s, args, [&] { return st->substr(start, count); }, got))
-            expect("substr", s, args, got, ref::substr(s, start, count));
-        vrt::count("substr.calls");
+        substr_check(st, s, start, count);
         if (count > SMAX - 100000) vrt::count("substr.count_near_SIZE_MAX");
         size_t k = r.chance(1, 2) ? r.below(2 * s.size() + 3) : (r.chance(1, 2) ? SMAX - r.below(50) : r.next());
-        args = sfmt("n=%zu", k);
-        if (call("left", s, args, [&] { return st->left(k); }, got)) expect("left", s, args, got, ref::left(s, k));
-        if (call("right", s, args, [&] { return st->right(k); }, got)) expect("right", s, args, got, ref::right(s, k));
-        vrt::count("left_right.calls", 2);
-        if (k > s.size() && k < 2 * s.size()) vrt::count("right.n_between_size_and_2size");
+        left_right_check(st, s, k);
         vrt::distinct(vrt::fnv_u64(k, vrt::fnv_u64(count, vrt::fnv_u64(static_cast<uint64_t>(start), vrt::fnv1a(s.data(), s.size(), 15)))));
     });
+    // ---- 6. scale: subjects of 4 KiB .. 1 MiB.  The case index walks a grid block size B x multiple q x operation family; what is put
+    // on / next to the multiple q*B is, per family: the subject's length, the start / count / n of a slice (measured from the
+    // beginning and from the end), the length of the subject or of the run to be trimmed, the place where a separator occurrence
+    // straddles or touches the multiple (measured from the beginning: first occurrence; from the end: last occurrence).
+    {
+        vrt::require("scale.cases", 200);
+        vrt::require("scale.slice.cases", 40);
+        vrt::require("scale.trim.cases", 40);
+        vrt::require("scale.trim.first_kept_byte_aliases_member", 40);
+        vrt::require("scale.trim.long_charset", 5);
+        vrt::require("scale.trim.run_on_grid", 10);
+        vrt::require("scale.sep.cases", 100);
+        vrt::require("scale.sep.occurrence_straddles_block_boundary", 50);
+        vrt::require("scale.sep.measured_from.beginning", 40);
+        vrt::require("scale.sep.measured_from.end", 40);
+        vrt::require("scale.sep.match_free_stretch>=64KiB", 20);
+        vrt::require("scale.subject>=64KiB", 40);
+        vrt::require("scale.subject>128KiB", 40);
+        const std::vector<size_t> &BL = scale::blocks();
+        const uint64_t G = BL.size() * 8;
+        enum { SLICE, TRIM, SEP_BEGIN, SEP_END, SEP_BEGIN_BIG, SEP_END_BIG, NKINDS };
+        vrt::phase("scale", vrt::tier_count(2 * NKINDS * G, 40 * NKINDS * G), [&](uint64_t i, Rng &r) {
+            size_t B = BL[i % BL.size()], q = 1 + (i / BL.size()) % 8;
+            const unsigned kind = static_cast<unsigned>((i / G) % NKINDS);
+            const size_t cap = kind == TRIM ? 300u << 10 : 1u << 20;
+            while (B > cap) B /= 4;
+            while (q > 1 && q * B > cap) q = (q + 1) / 2;
+            const size_t dist = q * B;
+            size_t subject_len = 0;
+            if (kind == SLICE) {
+                // (a) the subject's own length on / next to the multiple, offsets from other grid points; (b) a longer subject and
+                // offsets at the multiple, counted from the beginning and from the end
+                size_t len;
+                if (dist >= 4096 && r.chance(1, 2)) len = static_cast<size_t>(static_cast<long>(dist) + scale::nudge(r));
+                else len = std::min<size_t>(cap + 70000, dist + (r.chance(1, 2) ? 4096 + r.below(70000) : scale::length(r, cap, 4096)));
+                const S s = fill_random(r, len, r.chance(1, 4) ? S("ab") : S());
+                vrt::Box<ST::string> st(vrt::mk(s));
+                std::vector<size_t> off = {std::min(dist, len), static_cast<size_t>(std::max<long>(0, static_cast<long>(dist) + scale::nudge(r))),
+                                           len - std::min(dist, len), static_cast<size_t>(std::max<long>(0, static_cast<long>(len - std::min(dist, len)) + scale::nudge(r))),
+                                           scale::offset_any(r, len), scale::offset_any(r, len)};
+                for (size_t k = 0; k < off.size(); ++k) {
+                    const size_t o = off[k], o2 = off[(k + 1 + r.below(off.size() - 1)) % off.size()];
+                    const long pstart = static_cast<long>(o), nstart = -static_cast<long>(o);
+                    const size_t avail = o <= len ? len - o : 0;
+                    const size_t counts[] = {o2, avail, avail + 1, avail ? avail - 1 : 0, SMAX, SMAX - o, dist, dist + 1, dist - 1};
+                    substr_check(st, s, pstart, counts[r.below(9)]);
+                    substr_check(st, s, pstart, counts[r.below(9)]);
+                    substr_check(st, s, nstart, counts[r.below(9)]);
+                    if (k % 2) substr_check_default_count(st, s, r.chance(1, 2) ? pstart : nstart);
+                    left_right_check(st, s, o);
+                    if (k < 2) left_right_check(st, s, len + o);
+                }
+                left_right_check(st, s, static_cast<size_t>(static_cast<long>(len) + (r.chance(1, 2) ? 1 : -1)));
+                if (vrt::str_of(*st) != s) vrt::violation("C08:substr:subject-changed", scale::brief(s));
+                vrt::count("scale.slice.cases");
+                subject_len = len;
+                if (vrt::want_sample("scale.slice"))
+                    vrt::sample("scale.slice", sfmt("subject %s block=%zu x %zu: substr / left / right at offsets %zu, %zu, %zu, %zu, %zu, %zu from the beginning and from the end",
+                                                    scale::brief(s).c_str(), B, q, off[0], off[1], off[2], off[3], off[4], off[5]));
+            } else if (kind == TRIM) {
+                const std::vector<S> &sets = scale_charsets();
+                const bool dflt = r.chance(1, 4);
+                const S &chosen = sets[r.below(sets.size())];
+                const S set = dflt ? S(" \t\r\n") : chosen;
+                const char *cs = dflt ? nullptr : chosen.c_str();
+                S non;                                       // bytes outside the set (NUL included: it is never a member)
+                for (int ch = 0; ch < 256; ++ch) if (!ref::in_set(set, static_cast<char>(ch))) non += static_cast<char>(ch);
+                // big multiples: the subject's length sits on the grid; small ones: the length of the run to be trimmed does
+                size_t len, lead, trail;
+                const bool run_on_grid = dist < 4096 || r.chance(1, 4);
+                if (run_on_grid) {
+                    len = scale::length(r, cap, 4096 + 2 * dist + 2);
+                    const size_t run = static_cast<size_t>(std::max<long>(0, static_cast<long>(std::min(dist, (len - 2) / 2)) + scale::nudge(r)));
+                    lead = r.chance(2, 3) ? run : r.below(20);
+                    trail = (lead != run || r.chance(1, 2)) ? run : r.below(20);
+                } else {
+                    len = static_cast<size_t>(static_cast<long>(dist) + scale::nudge(r));
+                    lead = r.chance(1, 3) ? 0 : r.below(20);
+                    trail = r.chance(1, 3) ? 0 : r.below(20);
+                }
+                if (lead + trail + 2 > len) len = lead + trail + 2;
+                S s;
+                bool alias_l = false, alias_r = false;
+                if (r.chance(1, 12)) {
+                    s = fill_background(r, len, set);           // nothing but members: everything goes
+                } else {
+                    char kf, kl;
+                    alias_l = r.chance(5, 6) && alias_of_member(r, set, r.chance(5, 6), kf);
+                    if (!alias_l) kf = non[r.below(non.size())];
+                    alias_r = r.chance(5, 6) && alias_of_member(r, set, r.chance(5, 6), kl);
+                    if (!alias_r) kl = non[r.below(non.size())];
+                    S mid_alpha = set;
+                    for (int k = 0; k < 4; ++k) mid_alpha += non[r.below(non.size())];
+                    s = fill_random(r, lead, set);
+                    s += kf;
+                    s += fill_background(r, len - lead - trail - 2, mid_alpha);
+                    s += kl;
+                    s += fill_random(r, trail, set);
+                }
+                S got;
+                trim_check(s, cs, &got);
+                vrt::count("scale.trim.cases");
+                if (alias_l) vrt::count("scale.trim.first_kept_byte_aliases_member");
+                if (alias_r) vrt::count("scale.trim.last_kept_byte_aliases_member");
+                if (set.size() >= 32) vrt::count("scale.trim.long_charset");
+                if (run_on_grid) vrt::count("scale.trim.run_on_grid");
+                for (unsigned char ch : set) if (ch >= 0x80) { vrt::count("scale.trim.charset_with_high_bytes"); break; }
+                subject_len = s.size();
+                if (vrt::want_sample("scale.trim") && alias_l && alias_r)
+                    vrt::sample("scale.trim", sfmt("subject %s charset=%s%s block=%zu x %zu: %zu members, then %02x ... %02x, then %zu members -> %s", scale::brief(s).c_str(),
+                                                   show(set).c_str(), cs ? "" : "(default)", B, q, lead, static_cast<unsigned char>(s[lead]),
+                                                   static_cast<unsigned char>(s[s.size() - trail - 1]), trail, scale::brief(got).c_str()));
+            } else {
+                const bool from_end = kind == SEP_END || kind == SEP_END_BIG, big = kind == SEP_BEGIN_BIG || kind == SEP_END_BIG;
+                static const char *const nalpha[] = {"ab", "aAbB", "iI", "ab\x80", "Kk\xcb\xeb", "Ii\xc9", "a`{", ":", "zZ9"};
+                static const char *const bgs[] = {"x", "xy", "xyz.", "x\xc3\xa9", "\xff", "\xe9\xeb", "@[", "X", "\xe9"};
+                S al = nalpha[r.below(sizeof(nalpha) / sizeof(nalpha[0]))], bg;
+                for (;;) {          // a background that cannot match (modulo ASCII case)
+                    bg = bgs[r.below(sizeof(bgs) / sizeof(bgs[0]))];
+                    bool clash = false;
+                    for (unsigned char x : bg) for (unsigned char y : al) if (ref::fold(x) == ref::fold(y)) clash = true;
+                    if (!clash) break;
+                }
+                if (r.chance(1, 4)) al.push_back('\0');
+                const size_t nlen = r.chance(1, 8) ? 1 : r.chance(1, 4) ? 9 + r.below(300) : 2 + r.below(7);
+                const S n = gen::bytes_over(r, nlen, al);
+                const size_t margin = big ? 131072 + r.below(70000) : r.chance(1, 2) ? r.below(40) : 1000 + r.below(70000);
+                const size_t len = dist + nlen + margin;
+                S h = fill_background(r, len, bg);
+                const size_t point = from_end ? len - dist : dist;
+                const size_t back = (nlen >= 2 && r.chance(3, 4)) ? 1 + r.below(nlen - 1) : r.chance(1, 2) ? 0 : nlen;
+                size_t at = point + static_cast<size_t>(r.chance(1, 5) ? scale::nudge(r) + 9 : 9) - 9;
+                at = at >= back ? at - back : 0;
+                S occ = n;
+                if (r.chance(1, 2)) occ = r.chance(1, 2) ? ref::uppered(n) : ref::folded(n);
+                at = scale::plant(h, at, occ);
+                // further occurrences only where they cannot mask the primary one: behind it when it has to be the first, in front when the last
+                const unsigned extra = static_cast<unsigned>(r.below(3));
+                for (unsigned k = 0; k < extra; ++k) {
+                    size_t lo, hi;
+                    if (!from_end) { lo = at + nlen; hi = len; } else { lo = 0; hi = at; }
+                    if (hi < lo + nlen) continue;
+                    const size_t where = r.chance(1, 2) ? lo + r.below(hi - lo - nlen + 1) : std::min(hi - nlen, std::max(lo, scale::offset_any(r, len)));
+                    scale::plant(h, where, r.chance(1, 2) ? ref::uppered(n) : n);
+                }
+                vrt::cur_printf("scale: subject %s sep=%s planted at %zu\n", scale::brief(h, at).c_str(), show(n).c_str(), at);
+                vrt::cur_mark_here();
+                sep_case(h, n, false);
+                sep_case(h, n, true);
+                vrt::count("scale.sep.cases");
+                vrt::count(from_end ? "scale.sep.measured_from.end" : "scale.sep.measured_from.beginning");
+                if (back > 0 && back < nlen) vrt::count("scale.sep.occurrence_straddles_block_boundary");
+                if ((from_end ? len - at - nlen : at) >= 65536) vrt::count("scale.sep.match_free_stretch>=64KiB");
+                if (nlen >= 9) vrt::count("scale.sep.long_separator");
+                subject_len = len;
+                if (vrt::want_sample("scale"))
+                    vrt::sample("scale", sfmt("subject %s sep=%s block=%zu x %zu measured from the %s, occurrence at %zu (%zu of its bytes before the multiple), %u more occurrence(s) %s it",
+                                              scale::brief(h, at).c_str(), show(n).c_str(), B, q, from_end ? "end" : "beginning", at, back, extra, from_end ? "in front of" : "behind"));
+            }
+            vrt::count("scale.cases");
+            if (subject_len >= 65536) vrt::count("scale.subject>=64KiB");
+            if (subject_len > 131072) vrt::count("scale.subject>128KiB");
+            if (subject_len >= 1u << 20) vrt::count("scale.subject>=1MiB");
+        });
+    }
     // slices of 256 MiB and more out of a string longer than that (such strings come from the library's own non-validating
     // producers): about 3 s and 0.8 GB, one case
     if (vrt::opt().scale >= 1.0) {
